@@ -1,0 +1,29 @@
+//go:build verif
+
+package fzf
+
+// Verification hooks (build tag verif) for the memory that holds item text: the unexported
+// Terminal.itemLines on a minimal Terminal, and access to an item's util.Chars. No logic.
+
+import (
+	"github.com/junegunn/fzf/src/tui"
+	"github.com/junegunn/fzf/src/util"
+)
+
+type verifWidthWindow struct {
+	tui.Window
+	w int
+}
+
+func (w verifWidthWindow) Width() int { return w.w }
+
+// VerifItemLines runs Terminal.itemLines for item on a Terminal whose list window is `width` columns wide.
+func VerifItemLines(item *Item, wrap bool, multiLine bool, atMost int, width int, pointerLen int, markerLen int,
+	wrapSignWidth int, tabstop int) ([][]rune, bool) {
+	t := &Terminal{wrap: wrap, multiLine: multiLine, window: verifWidthWindow{w: width}, pointerLen: pointerLen,
+		markerLen: markerLen, wrapSignWidth: wrapSignWidth, tabstop: tabstop}
+	return t.itemLines(item, atMost)
+}
+
+// VerifItemChars returns the item's text.
+func VerifItemChars(item *Item) *util.Chars { return &item.text }
